@@ -225,6 +225,18 @@ pub fn singular_query_segments(rule: Pair<Rule>) -> Parsed<Vec<SingularQuerySegm
     for r in rule.into_inner() {
         match r.as_rule() {
             Rule::name_segment => {
+                // like for ordinary segments, no blank is allowed between `.` and the name
+                if r.as_str()
+                    .strip_prefix('.')
+                    .and_then(|rest| rest.chars().next())
+                    .map(is_blank)
+                    .unwrap_or(false)
+                {
+                    return Err(JsonPathError::InvalidJsonPath(format!(
+                        "Invalid name segment `{}`",
+                        r.as_str()
+                    )));
+                }
                 segments.push(SingularQuerySegment::Name(
                     next_down(r)?.as_str().trim_matches(is_blank).to_string(),
                 ));
